@@ -63,6 +63,15 @@ func (eng *Engine) execCall(fn *ssa.Function, in ssa.CallInstruction, env *Env) 
 		if !eng.checkNonNil(in, fv, env, "function value "+describe(com.Value), "nilfunc") {
 			return nil
 		}
+		if fv.K == KFunc && fv.Fn == nil && len(fv.Fns) > 0 {
+			// one of a known table of functions: every target is analysed on its own copy of the state
+			var outs []*Env
+			for _, target := range fv.Fns {
+				e2 := env.clone()
+				outs = append(outs, eng.callResolved(fn, target, nil, in, args, e2)...)
+			}
+			return outs
+		}
 		if fv.K == KFunc && fv.Fn != nil {
 			callee = fv.Fn
 			bind = fv.Bind
@@ -75,6 +84,15 @@ func (eng *Engine) execCall(fn *ssa.Function, in ssa.CallInstruction, env *Env) 
 		for _, b := range mc.Bindings {
 			bind = append(bind, eng.val(env, b))
 		}
+	}
+	return eng.callResolved(fn, callee, bind, in, args, env)
+}
+
+// callResolved: the call with its target known.
+func (eng *Engine) callResolved(fn, callee *ssa.Function, bind []AV, in ssa.CallInstruction, args []AV, env *Env) []*Env {
+	// a thunk for a method expression T.m: its body is the call of the method
+	if callee.Synthetic != "" && len(callee.Blocks) > 0 && !eng.p.InModule(callee) && eng.p.inModuleLoose(callee) && !eng.rec[callee] {
+		return eng.inline(callee, in, args, bind, env)
 	}
 	if !eng.p.InModule(callee) {
 		return eng.execStd(callee, in, args, env)
